@@ -221,8 +221,8 @@ class Evaluator:
                 if cfg.reduction == "udpor" and res.rc not in (0, 2) and res.aborted and "no specialized computation" in res.log:
                     ctx.count("udpor.refused")        # documented refusal of an unsupported transition type
                     continue
-                if cfg.explorer == "BeFS" and cfg.reduction != "udpor" and mc_red.cut_short(res):
-                    ctx.count("cut_short.%s" % cfg.explorer)
+                if (cfg.explorer == "BeFS" or cfg.reduction == "udpor") and mc_red.cut_short(res):
+                    ctx.count("cut_short.%s" % ("udpor" if cfg.reduction == "udpor" else cfg.explorer))
                     inv = res.outcomes() - ro
                     if inv:
                         ex = sorted(inv)[0]
